@@ -281,3 +281,7 @@ def expected(m):
     if m["mospin"]:
         exp[("extra", "mo_spin")] = Exact(np.array(m["spins"], dtype=int))
     return exp
+
+
+# Classes that are generated but NOT asserted by C03 (triage decisions, see DESIGN.md section 7): class -> reason
+NOT_ASSERTED = {'exp3_coefficients': 'Fortran output without exponent letter: edge case'}
